@@ -346,6 +346,17 @@ def explore(drv: Driver, model, *, max_states=None, max_depth=None, max_violatio
     leaves = [i for i in range(len(keys)) if i not in has_child and i != 0]
     if not leaves and len(keys) > 1:
         leaves = [len(keys) - 1]
+    if len(keys) == 1 and replay_cap:
+        # single-state design: validate the hand-driven evaluation of one-step paths instead
+        alpha = list(model.alphabet(ref0))
+        for val in ([alpha[0], alpha[-1]] if len(alpha) > 1 else alpha):
+            drv.restore(hw0)
+            mine = drv.apply(val)
+            obs_list, _ = drv.public_replay([val])
+            if obs_list[0] != mine:
+                raise HarnessError(f"public-API evaluation differs from explorer: {obs_list[0]} != {mine}")
+            res.replayed += 1
+        res.sample_paths = [[alpha[-1]]]
     if len(leaves) > replay_cap:
         step = len(leaves) / replay_cap
         leaves = [leaves[int(k * step)] for k in range(replay_cap)]
